@@ -561,6 +561,9 @@ def search(ctx):
         dict(kind="ising2d", rows=2, cols=3, J=0.7, g=0.5), dict(kind="heis2d", rows=3, cols=2, Jx=0.6, Jy=0.4, Jz=0.3, h=0.2),
         dict(kind="fh1d", L=2, u=0.8, t=0.7, mu=0.5), dict(kind="fh1d", L=3, u=0.8, t=0.7, mu=0.5),
         dict(kind="fh2d", Lx=2, Ly=1, u=0.8, t=0.7, mu=0.5), dict(kind="fh2d", Lx=2, Ly=2, u=0.8, t=0.7, mu=0.5),
+        # the smallest chains of every boundary condition (a periodic pair is coupled twice, by the builders and by the circuits)
+        dict(kind="ising1d", L=2, J=0.9, g=0.6, periodic=True), dict(kind="ising1d", L=3, J=0.7, g=0.5, periodic=True), dict(kind="ising1d", L=2, J=0.9, g=0.6),
+        dict(kind="heis1d", L=2, Jx=0.8, Jy=0.5, Jz=0.3, h=0.4, periodic=True), dict(kind="heis1d", L=3, Jx=0.8, Jy=0.5, Jz=0.3, h=0.4, periodic=True),
     ]
     if not ctx.quick:
         plan += [dict(kind="ising2d", rows=3, cols=2, J=0.4, g=0.9), dict(kind="heis2d", rows=2, cols=3, Jx=0.6, Jy=0.4, Jz=0.3, h=0.2),
